@@ -96,10 +96,9 @@ def check_new(rep, db, N, flags, mode, perm):
     """Schedule::new: canonical result independent of input order, exact error conditions, exact weights."""
     mk = Mk(db, CR)
     ex = Exec(db, loop_bound=N + 3)
-    out = {}
+    install_models(ex)
 
     def body(ex):
-        install_models(ex)
         ws, vals, freq, sel = build_inputs(ex, mk, N, flags, mode, perm)
         r = ex.call_by_name(r'.*schedule::Schedule::new::<std::vec::Vec<.*ValidatorInfo>>', [M.VecV(vals), sel])
         return ws, freq, r
@@ -148,9 +147,9 @@ def check_leader(rep, db, N, flags, mode, perm):
     """view_leader on the schedule built by the real `new`."""
     mk = Mk(db, CR)
     ex = Exec(db, loop_bound=N + 3)
+    install_models(ex)
 
     def body(ex):
-        install_models(ex)
         ex.residue = None
         ws, vals, freq, sel = build_inputs(ex, mk, N, flags, mode, perm)
         r = ex.call_by_name(r'.*schedule::Schedule::new::<std::vec::Vec<.*ValidatorInfo>>', [M.VecV(vals), sel])
@@ -263,6 +262,17 @@ fn replay() {{
         let turn = if freq == 0 {{ 0 }} else {{ view / freq }};
         if freq != 0 {{ assert_eq!(idx, leaders[(turn as usize) % leaders.len()], "round robin formula"); }}
         else {{ assert_eq!(leader, schedule.view_leader(ViewNumber(view.wrapping_add(1))), "frequency 0 rotates"); }}
+    }} else {{
+        // weighted walk oracle, computed independently with the real Keccak
+        let turn = if freq == 0 {{ 0 }} else {{ view / freq }};
+        let lw: u64 = leaders.iter().map(|&i| weights[i]).sum();
+        let h = zksync_consensus_crypto::keccak256::Keccak256::new(&turn.to_be_bytes());
+        let r = num_bigint::BigUint::from_bytes_be(h.as_bytes()) % num_bigint::BigUint::from(lw);
+        let r: u64 = r.to_u64_digits().first().copied().unwrap_or(0);
+        let mut acc = 0u64;
+        let mut expect = None;
+        for &i in &leaders {{ acc += weights[i]; if r < acc {{ expect = Some(i); break; }} }}
+        assert_eq!(Some(idx), expect, "weighted walk: residue {{}} of {{}}", r, lw);
     }}
 }}
 '''
